@@ -21,6 +21,8 @@ TRUSTED_BASE = [
 def env():
     e = dict(os.environ)
     e["CARGO_NET_OFFLINE"] = "true"
+    # per-request limit of the harness watchdog (a request that never returns aborts the harness process)
+    e.setdefault("ACHARNESS_REQ_TIMEOUT_S", "40" if os.environ.get("VERIF_TIER", "quick") == "quick" else "600")
     return e
 
 
@@ -178,7 +180,7 @@ HARNESS_DEATHS = []   # (request line, reason) of requests on which the harness 
 def _impl_timeout(tag):
     if tag in ("shrink", "directed", "bufcapdemo"):
         return 120
-    return 1800 if os.environ.get("VERIF_TIER", "quick") == "quick" else 7200
+    return 600 if os.environ.get("VERIF_TIER", "quick") == "quick" else 7200
 
 
 def run_impl(lines, tag, sub="exec"):
@@ -300,8 +302,16 @@ def diff(reqs, tag):
             if a != ref:
                 mism.append({"req": reqs[ln], "cfg": cfg, "impl": a, "model": ref, "line": ln})
         return impl, model, mism
+    # after the harness died more often than run_impl retries, the requests behind the last death have no answer at
+    # all: they were not compared (the deaths themselves are answered `harness-died:…` and do mismatch)
+    dead_from = None
+    if len(HARNESS_DEATHS) >= 4:
+        answered = [k[0] for k in impl]
+        dead_from = (max(answered) + 1) if answered else 0
     for k in sorted(set(impl) | set(model)):
         a, b = impl.get(k), model.get(k)
+        if a is None and dead_from is not None and k[0] >= dead_from:
+            continue
         if a != b:
             mism.append({"req": reqs[k[0]], "cfg": k[1], "impl": a, "model": b, "line": k[0]})
     return impl, model, mism
